@@ -642,6 +642,12 @@ pub fn run(ctx: &Ctx) -> i32 {
         lattice2(ctx, &mut rep);
     }
     run_cases(ctx, &mut rep, "sampled", ctx.cases(150_000, 5_000_000), case);
+    // the real daemon between generated masters: its port states and parentDS against the reference state decision
+    let workers = (ctx.threads as u64 / 2).clamp(2, 8);
+    let sum = crate::daemon::run_part(ctx, &mut rep, ctx.cases(3 * workers, 40 * workers), workers);
+    if let Some(why) = &sum.skipped {
+        println!("note: end-to-end daemon part skipped ({}); the other parts are unaffected", why);
+    }
     // every decision code must have been exercised
     let mut missing = vec![];
     for c in ["M1", "M2", "M3", "P1", "P2", "S1", "Stay"] {
@@ -653,7 +659,7 @@ pub fn run(ctx: &Ctx) -> i32 {
         Finish {
             ctx,
             level: "exploration",
-            rule: "own priority1/clockClass/accuracy/variance/priority2 from small domains (classes 6,127,128,248,255), slave-only, 1-3 ports each master-only or not; prior port states reached by a generated prelude (nothing, receipt timeout, earlier BMCA round with one master, P2P double responder => Faulty); per port 0-3 new foreign masters (grandmaster attributes from the same domains, the same grandmaster via different senders, stepsRemoved 0,1,2,3,254, sender identity below/above own) each qualified by two consecutive Announces delivered in a generated global order, re-announcement of the prelude master with changed contents, Announces from the own instance (same segment), BMCA with a generated port permutation. Oracle: independent Figure 33/34/35 implementation + Table 30/33 updates with statime's documented deviations; maximality; order independence (second run with reversed orders). Plus an exhaustive single-candidate lattice. Non-trivial = >= 2 candidates or a prior state other than Listening; distinct by case tuple.",
+            rule: "own priority1/clockClass/accuracy/variance/priority2 from small domains (classes 6,127,128,248,255), slave-only, 1-3 ports each master-only or not; prior port states reached by a generated prelude (nothing, receipt timeout, earlier BMCA round with one master, P2P double responder => Faulty); per port 0-3 new foreign masters (grandmaster attributes from the same domains, the same grandmaster via different senders, stepsRemoved 0,1,2,3,254, sender identity below/above own) each qualified by two consecutive Announces delivered in a generated global order, re-announcement of the prelude master with changed contents, Announces from the own instance (same segment), BMCA with a generated port permutation. Oracle: independent Figure 33/34/35 implementation + Table 30/33 updates with statime's documented deviations; maximality; order independence (second run with reversed orders). Plus an exhaustive single-candidate lattice. Non-trivial = >= 2 candidates or a prior state other than Listening; distinct by case tuple. Part daemon: the real statime daemon (own priority1 128, 127, 129 by worker) with two ports between up to two generated masters per segment plus, in half of the cases, the usual parent (priority1 100, class 6); 1-3 grandmasters with attributes from small domains around the daemon's and the parent's values (priority1 50..200, class 6/7/248/255, accuracy, variance, priority2), each sender being a grandmaster itself or 1-3 steps from one, so that one grandmaster may be heard on both segments at different distances; after 2 s of steady announcing the observed port states, parentDS and stepsRemoved must equal what the reference data set comparison and state decision give for the daemon's observed defaultDS and those candidates (a mismatch must persist through 1.5 s more of announcing; ties are not judged). Non-trivial there = >= 1 generated sender.",
             assumptions: vec![
                 "genuine ties (Error-1/-2) are skipped and counted".into(),
                 "timePropertiesDS after M1/M2 is not asserted (IEEE leaves the source of the local values to the implementation)".into(),
@@ -673,6 +679,9 @@ pub fn run(ctx: &Ctx) -> i32 {
 pub fn replay(ctx: &Ctx, path: &str) -> i32 {
     let s = std::fs::read_to_string(path).expect("read replay");
     let v: serde_json::Value = serde_json::from_str(&s).expect("parse");
+    if v["part"].as_str() == Some("daemon") {
+        return crate::daemon::replay_part(ctx, path, 2);
+    }
     if v["part"].as_str() == Some("single-candidate-lattice") {
         let mut rep = Report::new();
         lattice(ctx, &mut rep);
